@@ -325,6 +325,11 @@ def run(prop, tier, seed):
         stest = selftest(prop, traces, wd)
         if stest["rejected"] is False:
             raise InfraError(f"self-test failed: the monitor accepted a corrupted trace ({stest['corruption']})")
+        # (5) C03 on real text / binary protocol objects (engine W): reply streams stay aligned with the requests
+        realproto = None
+        if prop == "C03":
+            from checks import sessfam
+            realproto = sessfam.run_c03_part(out, tier, seed, wd)
         samples = []
         for sc in (beh[:1] + rnd[:1]):
             samples.append({"name": sc["name"], "steps": sc["steps"][:12]})
@@ -338,7 +343,7 @@ def run(prop, tier, seed):
             "tlc_behaviours_replayed": len(beh), "tlc_behaviour_prefixes_printed": nprinted,
             "gated_concurrent_histories": len(conc), "tlc_fine_schedules_replayed": len(fine), "realtime_ms_histories": len(rt), "random_histories": len(rnd), "big_histories": len(big), "directed_histories": len(direct),
             "monitor": {"module": "spec/mon/MonLock.tla", "events": mst["events"], "monitor_states": mst["monitor_states"], "clauses_of": prop},
-            "selftest": stest,
+            "selftest": stest, "real_protocol_connections": realproto,
             "evaluations": len(scs), "distinct_nontrivial": len({json.dumps(s["steps"], sort_keys=True) for s in scs}),
             "rule": "one evaluation = one history replayed on the real code and validated by the TLA+ monitor; distinct = distinct step sequences",
         }
